@@ -24,8 +24,10 @@ QUERIES = ['a', 'A', 'ab', 'AB', 'a*', 'A*', '*', '', 'a1', 'worldspawn', 'WORLD
 QUERIES_SH = ['a', 'A*', 'ab', 'worldspawn', '']
 ADD_FORMS = ['gen', 'iter', 'map', 'list', 'tuple']      # how the iterable is handed to VMF.add_ents
 MAX_OBJS = 6
-MODEL_DIGESTS: dict = {'CopySet.__iter__': '18a885efeefc', '_remove_copyset': '590e345663d7', 'VMF.search': '8cbe23d1283f',
-                       'Entity.make_unique': '11a000401c4a'}
+# functions that are modelled by hand only (no generated shape): a change escalates the correspondence budget.
+# VMF.search, CopySet.__iter__, _remove_copyset, Entity.__setitem__ and VMF.add_ents are read off the source as shapes
+# with obligations on every run, so a rewrite of those needs no escalation.
+MODEL_DIGESTS: dict = {'Entity.make_unique': '11a000401c4a'}
 MAX_MAPS = 3
 
 
@@ -655,7 +657,7 @@ def exhaustive_short():
 
 
 # ------------------------------------------------------------------------------------------------ source shapes
-SHAPE_IMPORTS = ['SV.SM.IndexModel', 'SV.SM.IndexShapes', 'SV.SM.IndexMaint', 'SV.Gen.IndexShapes_gen']
+SHAPE_IMPORTS = ['SV.SM.IndexModel', 'SV.SM.IndexShapes', 'SV.SM.IndexMaint', 'SV.SM.IndexRemove', 'SV.Gen.IndexShapes_gen']
 SHAPE_OBLIGATIONS = {
     # Entity.__setitem__ (theorem c07_setitem_as_written: all five => the code is the model's set_item)
     'setitem_lookup_is_case_insensitive': 'ss_match_ok gen_setitem_shape',
@@ -678,6 +680,11 @@ SHAPE_OBLIGATIONS = {
     # VMF.add_ents over an iterable argument (theorem c07_add_ents_as_written)
     'add_ents_lists_and_indexes_each_entity_once_for_a_list_argument': 'ae_ok_reiterable gen_add_ents',
     'add_ents_lists_and_indexes_each_entity_once_for_a_one_shot_iterable': 'ae_ok_oneshot gen_add_ents',
+    # _remove_copyset (theorem c07_remove_copyset_as_written: all four => the helper is the model's ix_remove)
+    'remove_copyset_finds_the_set_without_raising_and_skips_an_absent_key': 'rc_lookup_ok gen_remove_copyset',
+    'remove_copyset_discards_the_entity': 'rc_discards gen_remove_copyset',
+    'remove_copyset_keeps_the_other_members': 'rc_keeps_others gen_remove_copyset',
+    'remove_copyset_drops_the_set_that_became_empty': 'rc_drops_empty gen_remove_copyset',
     # CopySet.__iter__ (theorem c07_copyset_iteration_total)
     'copyset_iter_never_iterates_the_live_set': 'iprog_never_live gen_copyset_iter',
     'copyset_iter_is_snapshot_then_late_additions': 'iprog_is_today gen_copyset_iter',
@@ -693,6 +700,32 @@ def shape_obligations(ck: Ck) -> None:
 
 
 # ------------------------------------------------------------------------------------------------ main
+def _assumptions_in_background(ck: Ck, props_file: str):
+    """Start the coqc run that ck.theorems(props_file) would make, in a thread; the returned function waits for it and
+    calls ck.theorems with that run's result (ck.theorems itself is unchanged: it parses the output, records the axioms
+    and the theorem obligations).  If the harness ever builds a different scratch file, it simply runs its own."""
+    import re
+    from concurrent.futures import ThreadPoolExecutor
+    from harness.common import ROCQ
+    names = re.findall(r'^\s*(?:Theorem|Lemma|Corollary)\s+([A-Za-z0-9_\']+)', (ROCQ / props_file).read_text(), re.M)
+    mod = 'SV.' + props_file[:-2].replace('/', '.')
+    body0 = f'Require Import {mod}.\n' + ''.join(f'Print Assumptions {n}.\n' for n in names)
+    pool = ThreadPoolExecutor(max_workers=1)
+    orig = ck.coq_scratch
+    fut = pool.submit(orig, body0, 'assumptions')
+
+    def finish() -> None:
+        def cached(body: str, name: str = 'scratch', timeout: int = 600):
+            return fut.result() if body == body0 else orig(body, name, timeout)
+        ck.coq_scratch = cached          # type: ignore[method-assign]
+        try:
+            ck.theorems(props_file)
+        finally:
+            del ck.coq_scratch
+            pool.shutdown()
+    return finish
+
+
 def run(ck: Ck) -> None:
     import time
     t0 = time.time()
@@ -725,8 +758,10 @@ def run(ck: Ck) -> None:
     built = ck.build(['Props/C07.vo'] + (['SM/IndexCensus.vo'] if ok_t else []) + (['Gen/IndexShapes_gen.vo'] if ok_s else []))
     lap('translate+build')
     if built:
-        ck.theorems('Props/C07.v')
-        lap('print_assumptions')
+        # Print Assumptions of every theorem of Props/C07.v is one single-threaded coqc run of about 20 s: it runs in
+        # the background while the obligations and correspondences below are evaluated; ck.theorems() then does its
+        # usual bookkeeping on that output (same scratch file text, see _assumptions_in_background)
+        finish_theorems = _assumptions_in_background(ck, 'Props/C07.v')
         if ok_s:
             shape_obligations(ck)
             lap('shape_obligations')
@@ -756,12 +791,15 @@ def run(ck: Ck) -> None:
                 if not ok:
                     ck.tie_broken.append(f'census obligation {name} (Gen/IndexSites_gen.v)')
         # a changed hand-modelled function escalates the correspondence budget (never an alarm by itself)
-        if side.get('digests') and side['digests'] != MODEL_DIGESTS:
-            ck.notes.append(f'hand-modelled functions changed since the model was written ({side["digests"]}): thorough correspondence budget')
+        hand = {k: v for k, v in side.get('digests', {}).items() if k in MODEL_DIGESTS}
+        if side.get('digests') and (hand != MODEL_DIGESTS or not ok_s):
+            ck.notes.append(f'hand-modelled functions changed since the model was written ({hand}): thorough correspondence budget')
             ck.extra['digest_escalation'] = True
         lap('census_obligations')
         corr(ck, escalate=bool(ck.extra.get('digest_escalation')), shapes=ok_s)
         lap('correspondence')
+        finish_theorems()
+        lap('print_assumptions(wait)')
     search(ck)
     lap('oracle_search')
     keys = {v['key'] for v in ck.violations}
